@@ -164,6 +164,10 @@ finding("C14-star-alias-unquoted", "C14", [],
  "an alias (`name = expr`) whose name is exactly `*` (written in backticks); the formatted text has a bare `* =` and does not parse",
  "write_ident_part lets `*` through unquoted because the last part of `t.*` is stored as the identifier part `*`; for an alias that is wrong: `select {`*` = a}` is formatted as `select {* = a}` (parse error). Only reachable with an alias literally named `*`.",
  None)
+finding("C14-statement-alias-dropped", "C14", [],
+ "a statement that is an aliased expression without `let` (`x = (from t | ...)` at top level or inside a module): first differing path ends in `.VarDef.value.alias`, the alias is gone after formatting",
+ "`module m { x = (from t | take 1) }` parses to a Main variable definition whose value carries the alias `x`; the formatter writes the pipeline only (`module m {\n  from t\n  take 1\n}`), so the re-parsed tree has no alias. Found by the libFuzzer target fmt_rt.",
+ None)
 finding("C13-parser-resolver-spans-are-byte-offsets", "C13", ["C12"],
  "a syntactic / resolution / type / SQL-generation error (not a lexer error) whose position is preceded by multi-byte text; the ASCII twin of the source (same length in characters) passes every check",
  "Token spans are byte offsets (chumsky over &str); only lexer errors are converted to character offsets (convert_lexer_error). ErrorMessages::composed feeds parser and resolver spans to ariadne, which counts characters: after `# é` the reported column is one too far (`Unknown name zzz_col` at 3:144 instead of 3:143), `span` (documented as a character offset) is the byte offset, and when the byte offset exceeds the character count `assert!(e.location.is_some())` panics (error_message.rs:153). Not repaired: it needs a decision on the unit of the public `span` field across lexer, parser and resolver errors.",
@@ -230,6 +234,12 @@ panic_finding("gen-expr-result-unwrap", "prqlc/src/sql/gen_expr.rs", "called `Re
  "RQ JSON in which an operator is given operands of a shape its template cannot unpack", "rq_to_sql on RQ JSON")
 panic_finding("ident-unwrap", "prqlc-parser/src/parser/pr/ident.rs", "called `Option::unwrap()` on a `None` value",
  "PL JSON with an empty Ident path: {\"Ident\": []}", "json::to_pl")
+panic_finding("lowering-unwrap", "prqlc/src/semantic/lowering.rs", "called `Option::unwrap()` on a `None` value",
+ "from [{id = 1, k = 5, k = -5}, {id = 4, k = -5}] | select {id}", "compile / pl_to_rq",
+ "a relation literal whose row repeats a field name (found by the libFuzzer target src_stages).")
+panic_finding("transforms-unwrap", "prqlc/src/semantic/resolver/transforms.rs", "called `Option::unwrap()` on a `None` value",
+ "PL JSON of `let distinct = rel -> (from t = _param.rel | group {t.*} (take 1))` with a span edited", "pl_to_rq on a PL JSON document",
+ "found by the libFuzzer target json_pl.")
 panic_finding("codegen-ast-unwrap", "prqlc/src/codegen/ast.rs", "called `Option::unwrap()` on a `None` value",
  "PL JSON mutated so that a node the formatter unwraps is missing", "pl_to_prql on PL JSON")
 for kind, what, nmin in [("pipeline", "a pipeline of N `| derive {x = 1}` steps", 1024), ("add", "`1 + 1 + ... + 1` with N terms", 1024), ("lets", "a chain of N let-tables each reading the previous one", 4096), ("fstr", "an f-string with N interpolations", 16384)]:
